@@ -71,6 +71,24 @@ theorem wp_popKeepOptions (Q : Unit → PS → Prop) (R : PS → Prop) (s : PS) 
   unfold wp popKeepOptions
   cases h : s.optionsStack <;> simp
 
+theorem wp_assignNameSlots (s : PS) (h : NamesOK s.g) (Q : Groups.Tables → PS → Prop) (R : PS → Prop)
+    (hq : ∀ t, Q t s) : wp (assignNameSlots E) Q R s := by
+  unfold NamesOK at h
+  unfold wp assignNameSlots
+  by_cases ho : E.ord = true
+  · simp only [ho, if_true]
+    exact hq _
+  · have hn : ¬(s.g.capnames.isSome = true ∧ s.g.capnamelist.isEmpty = true) := by
+      intro ⟨h1, h2⟩
+      exact h h1 (by simpa using h2)
+    simp only [ho, hn, if_false, Bool.false_eq_true]
+    exact hq _
+
+theorem namesOK_initState : NamesOK Groups.initState := by
+  unfold NamesOK
+  simp [Groups.initState]
+
+
 attribute [local irreducible] wp
 
 /-! ## The cases of `countStep` -/
@@ -166,5 +184,23 @@ theorem wp_countStep (s : PS) (hs : s.pos < E.pat.length) :
     exact ⟨by le_tac, by le_tac, id⟩
   · refine wp_mono (wp_countParen E _ _ (by le_tac) (by le_tac) (by simp_all)) ?_ ?_
     all_goals (intros; rename_i h'; exact h'.weaken E (by le_tac) rfl rfl rfl)
+
+/-- **the capture pre-scan is total** -/
+theorem wp_countCaptures (s : PS) (hs : s.pos ≤ E.pat.length) :
+    wp (countCaptures E (E.pat.length + 1)) (fun _ s' => s'.pos ≤ E.pat.length) (fun _ => True) s := by
+  unfold countCaptures
+  wp_simp3
+  refine wp_iter E _ (fun _ s' => s'.pos ≤ E.pat.length ∧ NamesOK s'.g) _ _ ?_ _ _ _ (by dsimp only; omega)
+    ⟨hs, namesOK_initState⟩
+  intro _ s1 ⟨h1, h2⟩
+  wp_simp3
+  refine ⟨?_, ?_⟩
+  · intro h0
+    exact wp_assignNameSlots E s1 h2 _ _ (fun _ => h1)
+  · intro h0
+    refine wp_mono (wp_countStep E s1 (by omega)) ?_ ?_
+    · intro _ s2 h
+      exact ⟨⟨h.inside, h.names h2⟩, by have := h.floor; have := h.inside; omega⟩
+    · intros; trivial
 
 end RegexVerif.Parser
